@@ -701,9 +701,17 @@ func freeBound(t *Term) map[int]*Term {
 	return out
 }
 
+// substMemo is Subst with a caller-provided memo table (shared across many terms).
+func substMemo(t *Term, m map[int]*Term, memo map[int]*Term) *Term {
+	return substWith(t, m, memo)
+}
+
 // Subst replaces terms (by id) inside t.
 func Subst(t *Term, m map[int]*Term) *Term {
-	memo := map[int]*Term{}
+	return substWith(t, m, map[int]*Term{})
+}
+
+func substWith(t *Term, m map[int]*Term, memo map[int]*Term) *Term {
 	var rec func(t *Term) *Term
 	rec = func(t *Term) *Term {
 		if r, ok := m[t.id]; ok {
